@@ -275,6 +275,7 @@ class Model:
         pkg = self.src / self.package
         if not pkg.is_dir():
             raise AnalysisError(f"source package not found: {pkg}")
+        parsed: dict[str, tuple] = {}
         for path in sorted(pkg.rglob("*.py")):
             rel = path.relative_to(self.src)
             parts = list(rel.with_suffix("").parts)
@@ -287,6 +288,11 @@ class Model:
             except SyntaxError as e:  # the variant does not compile: not our business
                 raise AnalysisError(f"cannot parse {path}: {e}") from e
             raw = ast.parse(source, filename=str(path))
+            parsed[name] = (path, source, tree, raw)
+        if not os.environ.get("VERIF_NO_NORMALISE"):
+            from .normalise import normalise
+            normalise({k: v[2] for k, v in parsed.items()})
+        for name, (path, source, tree, raw) in parsed.items():
             tree = ast.fix_missing_locations(_Canon().visit(tree))
             mod = ModuleInfo(name, path, str(path.relative_to(self.root)), source, tree)
             mod.raw_tree = raw  # type: ignore[attr-defined]
